@@ -418,6 +418,29 @@ class Abs:
             if a == "__iter__":
                 return isinstance(o, (list, tuple, dict, str))
             return False
+        if dn == "getattr" and len(args) in (2, 3):
+            o, a = args[0], args[1]
+            if isinstance(o, Obj):
+                if o is self.self_obj and a in self.getters:
+                    return self.getters[a](o)
+                if a in o.attrs:
+                    return self.getattr(o, a)
+                if len(args) == 3:
+                    return args[2]
+                return self.getattr(o, a)
+            if len(args) == 3:
+                try:
+                    return self.getattr(o, a)
+                except Raised:
+                    return args[2]
+            return self.getattr(o, a)
+        if dn == "setattr" and len(args) == 3 and isinstance(args[0], Obj):
+            setter = self.summaries.get("set:%s.%s" % (args[0].cls, args[1]))
+            if setter is not None:
+                setter(args[0], args[2])
+            else:
+                args[0].attrs[args[1]] = args[2]
+            return None
         if dn == "callable":
             return isinstance(args[0], tuple) and args[0] and args[0][0] in ("callable", "lambda", "bound", "sampler")
         if dn == "print":
@@ -591,6 +614,12 @@ class Abs:
                 raise Undecided("attribute store on %r" % (base,))
         elif isinstance(t, ast.Subscript):
             base = self.ev(t.value)
+            if isinstance(t.slice, ast.Slice) and isinstance(base, list) and not getattr(base, "_abs_native", False):
+                lo = self.ev(t.slice.lower) if t.slice.lower is not None else None
+                hi = self.ev(t.slice.upper) if t.slice.upper is not None else None
+                st_ = self.ev(t.slice.step) if t.slice.step is not None else None
+                base[lo:hi:st_] = self._iter(v)
+                return
             k = None if getattr(base, "_abs_native", False) else self.ev(t.slice)
             if getattr(base, "_abs_native", False):
                 try:
